@@ -12,6 +12,7 @@ import (
 	"reflect"
 	"sort"
 	"strings"
+	"sync"
 
 	"golang.org/x/tools/go/packages"
 	"golang.org/x/tools/go/ssa"
@@ -40,6 +41,9 @@ type Ctx struct {
 	// Inlined: the helpers (absent from the pinned tree) that were written back into their callers before the analysis
 	Inlined    []string
 	InlineNote string
+
+	aliasOnce sync.Once
+	aliases   map[types.Object]types.Object
 }
 
 func cleanEnv(extra ...string) []string {
@@ -316,7 +320,7 @@ func (c *Ctx) fieldPath(e ast.Expr, root types.Object) (string, bool) {
 	e = ast.Unparen(e)
 	switch t := e.(type) {
 	case *ast.Ident:
-		if c.Info.Uses[t] == root || c.Info.Defs[t] == root {
+		if c.isIdentOf(t, root) {
 			return "", true
 		}
 		return "", false
@@ -385,7 +389,120 @@ func (c *Ctx) paramByName(fd *ast.FuncDecl, name string) types.Object {
 
 func (c *Ctx) isIdentOf(e ast.Expr, o types.Object) bool {
 	id, ok := ast.Unparen(e).(*ast.Ident)
-	return ok && o != nil && (c.Info.Uses[id] == o || c.Info.Defs[id] == o)
+	if !ok || o == nil {
+		return false
+	}
+	if c.Info.Uses[id] == o || c.Info.Defs[id] == o {
+		return true
+	}
+	return c.stableRoot(c.objOfIdent(id)) == c.stableRoot(o) && c.stableRoot(o) != nil
+}
+
+func (c *Ctx) objOfIdent(id *ast.Ident) types.Object {
+	if o := c.Info.Uses[id]; o != nil {
+		return o
+	}
+	return c.Info.Defs[id]
+}
+
+// stableRoot follows "x := y" / "var x T = y" copies between local variables (or from a parameter) that are never
+// assigned again and whose address is never taken: such an x holds y's value for its whole life, so a rule that asks
+// "is this the parameter" may accept the copy (the normalisation binds the parameters of a written-back helper this way).
+func (c *Ctx) stableRoot(o types.Object) types.Object {
+	if o == nil {
+		return nil
+	}
+	c.aliasOnce.Do(c.computeAliases)
+	for i := 0; i < 16; i++ {
+		n, ok := c.aliases[o]
+		if !ok {
+			return o
+		}
+		o = n
+	}
+	return o
+}
+
+func (c *Ctx) computeAliases() {
+	cand := map[types.Object]types.Object{}
+	dirty := map[types.Object]bool{}
+	local := func(o types.Object) bool {
+		v, ok := o.(*types.Var)
+		return ok && !v.IsField() && v.Parent() != nil && v.Parent() != c.Types.Scope() && v.Parent() != types.Universe
+	}
+	mark := func(e ast.Expr) {
+		if id, ok := ast.Unparen(e).(*ast.Ident); ok {
+			if o := c.objOfIdent(id); o != nil {
+				dirty[o] = true
+			}
+		}
+	}
+	for _, f := range c.Dns.Syntax {
+		ast.Inspect(f, func(n ast.Node) bool {
+			switch t := n.(type) {
+			case *ast.ValueSpec:
+				if len(t.Names) == len(t.Values) {
+					for i, nm := range t.Names {
+						if src, ok := ast.Unparen(t.Values[i]).(*ast.Ident); ok {
+							d, s := c.Info.Defs[nm], c.Info.Uses[src]
+							if d != nil && s != nil && local(d) && local(s) && types.Identical(d.Type(), s.Type()) {
+								cand[d] = s
+							}
+						}
+					}
+				}
+			case *ast.AssignStmt:
+				if t.Tok == token.DEFINE && len(t.Lhs) == len(t.Rhs) {
+					for i, l := range t.Lhs {
+						id, ok := l.(*ast.Ident)
+						if !ok {
+							continue
+						}
+						d := c.Info.Defs[id]
+						if d == nil {
+							// redeclared in a := with a new neighbour: an assignment
+							mark(l)
+							continue
+						}
+						if src, ok := ast.Unparen(t.Rhs[i]).(*ast.Ident); ok {
+							if s := c.Info.Uses[src]; s != nil && local(d) && local(s) && types.Identical(d.Type(), s.Type()) {
+								cand[d] = s
+							}
+						}
+					}
+				} else {
+					for _, l := range t.Lhs {
+						if id, ok := l.(*ast.Ident); ok && t.Tok == token.DEFINE && c.Info.Defs[id] != nil {
+							continue
+						}
+						mark(l)
+					}
+				}
+			case *ast.IncDecStmt:
+				mark(t.X)
+			case *ast.UnaryExpr:
+				if t.Op == token.AND {
+					mark(t.X)
+				}
+			case *ast.RangeStmt:
+				if t.Tok == token.ASSIGN {
+					if t.Key != nil {
+						mark(t.Key)
+					}
+					if t.Value != nil {
+						mark(t.Value)
+					}
+				}
+			}
+			return true
+		})
+	}
+	c.aliases = map[types.Object]types.Object{}
+	for d, s := range cand {
+		if !dirty[d] && !dirty[s] {
+			c.aliases[d] = s
+		}
+	}
 }
 
 // ---- record types ----
